@@ -212,8 +212,10 @@ namespace fastscapelib
     {
         if (size != m_size)
         {
-            m_size = size;
+            // stop (and possibly resume) the current workers before changing
+            // the size: the job flags still have the old size
             stop();
+            m_size = size;
             m_stopped = false;
             m_workers.clear();
             m_workers.reserve(size);
